@@ -237,7 +237,13 @@ def corpus_classify(line, impl, mobs, extra):
         # outside the documented format (a parsed feature ending in CR, i.e. a line ending in CR CR LF)
         # the round trip is not claimed: theorem write_parse_idempotent carries that hypothesis
         feats_cr = any(t.endswith("0d") for t in impl.split(" REWRITE ")[0].split()[2:])
-        if kind == "tokenizer" or not feats_cr:
+        # tokenizer cases: a surface or feature containing a tab or a line feed cannot be written in the line format at
+        # all (hypothesis WordRepr of tokenizer_output_parses; witnesses excluded_tab / excluded_lf)
+        toks = line.split(" IMPL ")[0].split()[4:] if kind == "tokenizer" else []
+        unrepresentable = any(any(h[i:i + 2] in ("09", "0a") for i in range(0, len(h), 2)) for h in toks if h != "-")
+        if kind == "tokenizer" and unrepresentable:
+            tags.append("excluded=tab-or-lf-in-a-token")
+        elif kind == "tokenizer" or not feats_cr:
             info["prop_fail"] = "corpus-roundtrip"
             info["why"] = "re-parsing the written-back corpus does not give the same examples"
         else:
@@ -445,7 +451,11 @@ def train_classifier(prop):
             return info
         if "SYNTH" in flags:
             tags.append("synth=" + flags["SYNTH"])
-        if prop == "C14":
+        if prop in ("C14", "C18") and flags.get("PRUNE") == "0":
+            info["prop_fail"] = "kept-feature-strings-are-not-the-weighted-features"
+            info["why"] = ("after training, the feature strings kept by the extractor are not exactly those of the weighted features: a user "
+                           "row given as 0,0,0 would not receive the trained parameters")
+        elif prop == "C14":
             if impl != mobs:
                 # decider: the Lean model recomputes the files from the model image by the formulas of the property
                 # (cost_is_truncation, lex_rows, unk_rows_grouped, user_policy, ids_in_dims)
